@@ -97,6 +97,14 @@ def gen_config(rng, tier, profile):
   s['MAX_QUEUE_SIZE_HARD_PCT'] = rng.choice([1.25, 1.25, 1.5, 2.0, 1.0])
   s['DESTINATION_PROTOCOL'] = rng.choice(['pickle', 'pickle', 'line'])
   s['TIME_TO_DEFER_SENDING'] = rng.choice([0.0001, 0.0001, 0.01, 0.5])
+  if profile in ('c07', 'c15') and rng.random() < 0.3:
+    # connection-quality resets: the relay compares what a destination was sent with
+    # what was received over the last instrumentation interval
+    s['CARBON_METRIC_INTERVAL'] = rng.choice([1, 2, 10])
+    s['USE_RATIO_RESET'] = True
+    s['MIN_RESET_STAT_FLOW'] = rng.choice([1, 3])
+    s['MIN_RESET_RATIO'] = rng.choice([0.5, 0.9])
+    s['MIN_RESET_INTERVAL'] = rng.choice([0, 1, 5])
   files = {'relay-rules.conf': gen_relay_rules(rng, dests),
            'aggregation-rules.conf': '\n'.join(rng.sample(AGG_RULES, rng.randint(1, len(AGG_RULES)))) + '\n'}
   return {'daemon': 'relay', 'settings': s, 'files': files, 'profile': profile}
@@ -193,14 +201,21 @@ def gen_plan(rng, cfg, tier, profile):
       ops.append(['read', rng.randrange(nd), rng.choice([1, 10, 100, 1000])])
     elif k == 'advance':
       ops.append(['advance', rng.choice([0.0, 0.0001, 0.001, 0.02, 0.6, 1.0, 2.5, 6.0, 6.0, 31.0])])
-  if profile == 'c07' and rng.random() < 0.25:
-    ops.append(['stop'])
+  if profile == 'c07' and rng.random() < 0.3:
+    # an orderly stop, sometimes with traffic still arriving while connections close
+    pos = len(ops) if rng.random() < 0.5 else rng.randint(len(ops) // 2, len(ops))
+    tail = ops[pos:]
+    ops = ops[:pos] + [['stop']]
+    for op in tail[:6]:
+      if op[0] in ('arrive', 'self', 'advance'):
+        ops.append(op)
     ops.append(['advance', 1.0])
   plan['ops'] = ops
   if nd > 1 and rng.random() < (0.6 if profile == 'c09' else 0.35):
     plan['dead'] = [rng.randrange(nd)]       # this destination never comes back
   plan['nrecv'] = rng.randint(1, 2)
   plan['bufsize'] = rng.choice([16, 64, 256, 65536])
+  plan['close_delay'] = rng.choice([0.0, 0.0, 0.00005, 0.001, 0.05])
   plan['jitter_seed'] = rng.randrange(1 << 30)
   plan['p_tie'] = rng.choice([0.0, 0.5, 0.9])
   if profile in ('c05', 'c06', 'c16'):
